@@ -542,12 +542,13 @@ Definition append_to_document (k : nkind) (s : ps) : ps :=
   set_d (upd (upd d' doc_id (fun n => mk_node (kind n) (kids n ++ [x]) (par n) (wp n)))
              x (fun n => mk_node (kind n) [] (Some doc_id) None)) s.
 
-(* Phase.startTagHtml: attributes the root does not have yet *)
+(* Phase.startTagHtml: attributes the root does not have yet.  This path goes through AttrList.__setitem__ ->
+   createAttribute + NamedNodeMap.__setitem__ (setNamedItem), which -- unlike setAttribute on the insertElement path --
+   does not remove an attribute that collides on (namespaceURI, localName): no minidom collision here *)
 Definition merge_attrs_into (x : nat) (a : attrs) (s : ps) : ps :=
   wd (fun dd => set_attrs dd x (fold_left (fun acc kv => match alookup (fst kv) acc with
                                                           | Some _ => acc
-                                                          | None => if flag F_no_minidom_collision s then acc ++ [kv]
-                                                                    else minidom_add acc kv end) a (eattrs dd x))) s.
+                                                          | None => acc ++ [kv] end) a (eattrs dd x))) s.
 Definition start_tag_html (a : attrs) (s : ps) : ps :=
   match opn s with x :: _ => merge_attrs_into x a s | [] => crashed (S' "startTagHtml: empty stack") s end.
 
